@@ -230,6 +230,45 @@ def run(ctx):
     if corr_bad and not ctx.violations and not ctx.known_hits:
         ctx.report({"kind": "correspondence"}, f"M-POOL does not accept / does not end in the re-raised state: {corr_bad[0]}",
                    {"correspondence": "M-POOL accepts(trace with failing input)", "theorem": "Sedpack.Pool.C07_pool_fault_raises", "cases": corr_bad[:3]}, name="corr", nofail=True)
+    # ---- Rust: parallel_map with a mapped function that panics on one item (cargo harness of C15, SEDPACK_VERIF hook): the pass
+    # raises, never ends short; the recorded channel operations — plus the consumer's failing `next`, which logs nothing — are
+    # accepted by M-PMAP's fault-aware step (`fstep`, repaired `next`) and leave the model failed with the same output
+    from harness.checks import c15
+    c15.cargo_harness(ctx, long_stall_ms=1)
+    faults = list(c15.FAULTS)
+    freqs, fmeta = [], []
+    for t in faults:
+        exp = [x * 10 for x in range(t["j"])]
+        if not t["raised"]:
+            ctx.report({"kind": "ended", "iface": "parallel_map"},
+                       f"parallel_map(n={t['n']}, threads={t['threads']}) whose function panics on item {t['j']} ended normally after {len(t['out'])} of {t['n']} results", {"case": {k: t[k] for k in ("n", "threads", "j", "out")}})
+        elif t["out"] != exp:
+            ctx.report({"kind": "order-or-truncation", "iface": "parallel_map"},
+                       f"parallel_map(n={t['n']}, threads={t['threads']}) with a panic on item {t['j']} had returned {t['out']} (expected {exp}) when it raised", {"case": {k: t[k] for k in ("n", "threads", "j", "out")}})
+        labs, dropped = [], False
+        for tok in t["trace"].split():
+            k, w = tok[0], int(tok[1:])
+            if k == "d":
+                if t["raised"]:
+                    labs.append(["n"])          # the call of `next` that panicked (it logs nothing), just before the unwinding drops the iterator
+                labs.append(["d"]); dropped = True
+            elif k == "n":
+                labs.append(["n"])
+            elif not dropped:
+                labs.append([k, w])
+        freqs.append({"m": "pmapfault", "threads": t["threads"], "n": t["n"], "fails": [t["j"]], "trace": labs}); fmeta.append((t, labs))
+    freps = lean.driver(freqs) if freqs else []
+    fbad = []
+    for (t, labs), rep in zip(fmeta, freps):
+        upto = labs.index(["d"]) if ["d"] in labs else len(labs)
+        if (not rep["ok"] and rep["at"] < upto) or rep["failed"] != t["raised"] or [x * 10 for x in rep["out"]] != t["out"]:
+            fbad.append({"case": {k: t[k] for k in ("n", "threads", "j", "raised", "out")}, "model": rep, "label": labs[rep["at"]] if rep["at"] < len(labs) else None})
+    if (fbad or not faults) and not ctx.violations:
+        ctx.report({"kind": "correspondence-rust-fault"}, f"M-PMAP (fault-aware) does not reproduce the recorded run with a panicking function: {json.dumps(fbad[0] if fbad else 'no fault case recorded')[:300]}",
+                   {"correspondence": "M-PMAP fstep accepts(recorded channel operations with a panicking item) and fails where the real next() panics",
+                    "theorem": "Sedpack.PMap.C07_rust_dead_worker_is_reported", "cases": fbad[:3]}, name="corr-rust", nofail=True)
+    ctx.cov["rust_fault_runs"] = len(faults)
+    ctx.cov["rust_fault_traces_accepted"] = len(faults) - len(fbad)
     ctx.cov.update({
         "evaluations": len(results) + len(pres), "distinct_nontrivial": len(distinct), "traces_validated_against_impl": len(pres) - len(corr_bad),
         "skipped_because_decoder_accepts": skipped, "passes_that_delivered_everything_despite_damage": tolerated,
